@@ -459,7 +459,7 @@ def run(chk, replay=None):
     QUICK[0] = quick
     gen = replay is None                      # --replay <file>: only the recorded case is re-run
     NS = 12 if quick else 20                     # samples checked per sequence
-    budget = {'zt': 185 if quick else 500, 'izt': 80 if quick else 400, 'resp': 120 if quick else 1200}
+    budget = {'zt': 185 if quick else 420, 'izt': 80 if quick else 400, 'resp': 120 if quick else 1200}
     chk.coverage['rule'] = ('zt: a case = a sum of 1-3 terms coef*n^p*a^n*base (base: impulse/step with integer delay incl. advances, '
                             'constant, cos/sin(b n + c) with Pythagorean cos/sin values) compared at 2 (quick) / 4 (thorough) random rational z and '
                             'coefficient-wise for n <= %d, plus IZT(ZT) samples; izt/filt: a case = (b, a) with a from rational simple/repeated poles; '
@@ -1911,6 +1911,25 @@ def run(chk, replay=None):
             conv_case(flist(inp['x']), inp['x0'], flist(inp['h']), inp['h0'])
         elif kind == 'lfilter':
             lfilter_case(flist(inp['b']), flist(inp['a']), flist(inp['x']))
+        elif kind in ('seq-zt', 'seq-izt-zt', 'seq-dft', 'seq-idft-dft'):
+            seqorg_case(flist(inp['vals']), int(inp['n0']))
+        elif kind == 'discretize':
+            disc_case(flist(inp['num']), flist(inp['den']), inp['method'], Fraction(inp['alpha']))
+        elif kind in ('dft', 'idft-dft', 'idft', 'idtft-dtft') and 'terms' not in inp or (kind == 'zt' and 'terms' not in inp):
+            loc = {'n': Lc.n, 'k': Lc.k, 'N': Nsym, 'I': S.I, 'UnitImpulse': Lc.UI, 'UnitStep': Lc.US,
+                   'dtrect': Lc.lcapy.extrafunctions.dtrect}
+            if kind == 'zt':
+                ztsum_case(S.sympify(inp['expr'], locals=loc), 'replay')
+            elif kind == 'idft':
+                idft_generic_case(S.sympify(inp['X'], locals=loc), int(inp['N']), 'replay')
+            elif kind == 'idtft-dtft':
+                idtft_case(S.sympify(inp['expr'], locals=loc), inp['domain'], int(inp['n'][0]), int(inp['n'][1]), 'replay',
+                           bool((rp.get('key') or {}).get('shifted_comb')))
+            else:
+                kk_ = rp.get('key') or {}
+                dft_generic_case(S.sympify(inp['expr'], locals=loc), int(inp['N']), bool(inp.get('symbolic_N')), inp.get('family', 'replay'),
+                                 flags={f_: kk_[f_] for f_ in ('geo_base_is_root_of_unity', 'impulse_index_wrapped', 'ramp_step_delay_ge2') if f_ in kk_},
+                                 piecewise=bool(inp.get('piecewise')))
         elif kind in ('dft', 'idft-dft') and 'exp*' not in inp.get('terms', '') and all(len(t.split()) < 9 for t in inp['terms'].split(';')):
             ts = parse_sig(inp['terms'])
             dft_case(ts, inp['N'], bool(inp.get('symbolic_N')), [None] * len(ts))
